@@ -13,15 +13,15 @@ package replicator
 //@ ghost pred storedOnCandidate(i int) bool
 
 //@ callrule local_put_fact in (*Replicator).HandleTask
-//@   property C27
+//@   property C27 C26
 //@   callee *).Put
 //@   defines err == nil ==> storedOnCandidate(i)
 //@ callrule remote_replication_fact in (*Replicator).HandleTask
-//@   property C27
+//@   property C27 C26
 //@   callee *).ReplicateObjectToNode
 //@   defines err == nil ==> storedOnCandidate(i)
 //@ callrule report_only_stored_and_not_more_than_asked in (*Replicator).HandleTask
-//@   property C27
+//@   property C27 C26
 //@   callee (replicator.TaskResult).SubmitSuccessfulReplication
 //@   assigns reported
 //@   requires [object_stored_on_the_reported_candidate] storedOnCandidate(i)
@@ -29,7 +29,7 @@ package replicator
 //@   defines reported(0) == old(reported(0)) + 1
 
 //@ func (*Replicator).HandleTask
-//@   property C27
+//@   property C27 C26
 //@   mode bv
 //@   valid reported(0) == 0
 //@   loop 1 invariant reported(0) + task.quantity == old(task).quantity && reported(0) <= old(task).quantity
